@@ -37,6 +37,9 @@ struct LqRun {
     void setup() {
         params.alloc(R.sz(JV_SZ_LQ_PARAMS)); msk.alloc(R.sz(JV_SZ_LQ_MSK));
         begin((uint64_t) plan.c("setup_seed", 1)); env.stream.limit += 64;
+        // one setup in eight: the random source's first candidate for the generator P is a point of the cofactor torsion (its cofactor multiple is the
+        // identity: the sampler must draw again - a legal, astronomically rare output of an honest source)
+        if (plan.c("setup_torsion", 0)) { std::vector<uint8_t> raw; if (torsion_candidate_raw(R, 2, (uint64_t) plan.c("setup_seed", 1), raw)) { env.stream.push(48, std::vector<uint8_t>(raw.begin(), raw.begin() + 48)); env.stream.push(48, std::vector<uint8_t>(raw.begin() + 48, raw.end())); env.stream.push(1, std::vector<uint8_t>(1, (uint8_t) (plan.c("setup_seed", 1) & 1))); env.count("fault:setup_generator_candidate_in_cofactor_torsion"); } }
         R.jv_lq_setup(view, params, msk, jv_rand_cb);
         Bn s = drawn("setup"); s_raw = msk_scalar();
         env.check(s_raw == s, "C16", "setup:master-scalar", "master scalar is not the scalar drawn from the stream");
@@ -233,6 +236,7 @@ struct LqScenario : Scenario {
             }
             return p;
         }
+        if (r.chance(1, 8)) p.cfg["setup_torsion"] = 1;
         int n = r.range(3, 20);
         static const char* sf[] = {"storm8", "tupler", "tuplerm1", "tuple1", "digitxm1", "tuple0"};
         for (int i = 0; i < n; i++) {
